@@ -11,7 +11,7 @@ from ptstat import AnalysisError, relang, peg
 from ptstat.symval import SymObj, Phi, SymRaise
 from ptstat.world import World
 from spec import grammar_gen as G
-from .common import fsite, raises, folder, _s, public_entry_points
+from .common import fsite, raises, folder, _s, public_entry_points, eq
 
 EXPLANATION = (
     "K10: formulas.formula_grammar is interpreted from the current source with the pyparsing combinators bound to a "
@@ -347,6 +347,28 @@ def run(ctx):
                   "the earlier result's += shows in a later reading of the same string", site, witness=text)
         ctx.check(I.getattr(fb, "name") != "edited", "R9", f"name of {text!r} read again after the first result was renamed",
                   "the earlier result's name shows in a later reading", site, witness=text)
+    # ... and nothing of an earlier reading survives a change of the table it was read with: a density given as '@<d>n'
+    # (natural density) is resolved with the masses the table has when the string is read
+    text = "D2O@1n"
+    raised_ = raises(lambda: I.call(fm, [text], {"table": w.table}))
+    if raised_ is None:
+        f_old = I.call(fm, [text], {"table": w.table})
+        d_old = I.getattr(f_old, "density")
+        d_atom = [a_ for a_ in I.getattr(f_old, "atoms") if a_ is not O_][0]
+        h_heap = I.heap[I.getattr(d_atom, "element").id] if I.hasattr(d_atom, "element") else None
+        if h_heap is not None and d_old is not None:
+            m_before = h_heap.get("_mass")
+            h_heap["_mass"] = sp.Symbol("m_H_edited", positive=True)
+            try:
+                f_new = I.call(fm, [text], {"table": w.table})
+                f_ref = I.call(fm, [dict(I.getattr(f_new, "atoms"))], {"natural_density": sp.Integer(1)})
+                eq(ctx, "R9", "density of 'D2O@1n' read again after the mass of natural hydrogen was edited in the table",
+                   I.getattr(f_new, "density"), I.getattr(f_ref, "density"), site, what="the density resolved from the natural density")
+            finally:
+                if m_before is None:
+                    I.heap[I.getattr(d_atom, "element").id].pop("_mass", None)
+                else:
+                    I.heap[I.getattr(d_atom, "element").id]["_mass"] = m_before
     _sv9.OPTIONS["unit_groups"] = False
     if saved_public is _NOTSET:
         I.module_cache.pop(("core", "PUBLIC_TABLE"), None)
